@@ -2,7 +2,7 @@
 //! All finite floats; orientation is an oracle; `intersection` is replaced by its contract (any classification whose
 //! points lie inside both bounding boxes -- U-I1 -- the geometric exactness being the business of the segint unit).
 use super::super::divide_segment::divide_segment;
-use super::super::helper::Float;
+use super::super::helper::{Float, NextAfter};
 use super::super::possible_intersection::possible_intersection;
 use super::super::segment_intersection::LineIntersection;
 use super::super::sweep_event::{EdgeType, SweepEvent};
@@ -25,13 +25,6 @@ fn pt<F: AnyF, S: Src>(s: &mut S) -> Coord<F> {
 
 fn w<F: AnyF>(c: Coord<F>) -> P {
     P { x: c.x.into(), y: c.y.into() }
-}
-
-fn ev_of<F: AnyF>(e: &Rc<SweepEvent<F>>) -> Ev {
-    let o = e.get_other_event().unwrap();
-    let r = Ev { p: w(e.point), q: w(o.point), left: e.is_left(), subject: e.is_subject, contour: e.contour_id };
-    std::mem::forget(o);
-    r
 }
 
 /// events pushed since the recorder held n0 entries (Kani: from the push contract stub; replay: drained from the real heap)
@@ -72,10 +65,13 @@ fn linked<F: AnyF>(a: &Rc<SweepEvent<F>>, b: &Rc<SweepEvent<F>>) -> bool {
 
 /// the sub-segment invariant of C13: mutually linked pair, exactly one left flag, the left event first, non-zero length
 fn is_subsegment<F: AnyF>(l: &Rc<SweepEvent<F>>, r: &Rc<SweepEvent<F>>) -> bool {
-    linked(l, r) && l.is_left() && !r.is_left() && ev_before(ev_of(l), ev_of(r)) && l.point != r.point
+    let el = Ev { p: w(l.point), q: w(r.point), left: l.is_left(), subject: l.is_subject, contour: l.contour_id };
+    let er = Ev { p: w(r.point), q: w(l.point), left: r.is_left(), subject: r.is_subject, contour: r.contour_id };
+    linked(l, r) && l.is_left() && !r.is_left() && ev_before(el, er) && l.point != r.point
 }
 
-/// U-I3.  requires: a proper sub-segment (l, r); the division point differs from both ends and lies in the segment's box.
+/// U-I3.  requires: a proper sub-segment (l, r); the division point differs from both ends and is not left of the left end
+/// (in particular: any point of the segment's bounding box).
 /// ensures: two new events, both at the division point (bumped by one ulp in x in the documented corner case), pushed
 /// exactly once each; (l, r') and (l', r) -- or (r, l') when the remainder is re-oriented -- are proper sub-segments
 /// again; operand and contour id inherited; chain: the two pieces meet in the division point.
@@ -87,11 +83,13 @@ pub fn divide_segment_contract_body<F: AnyF, S: Src>(s: &mut S) {
     let bump = Coord { x: i.x.nextafter(true), y: i.y };
     register_points(&[w(p), w(q), w(i), w(bump)]);
     s.assume(pt_lt(w(p), w(q)));
-    s.assume(i != p && i != q && in_box(i, p, q));
+    s.assume(i != p && i != q && i.x >= p.x);
     s.assume(bump.x.is_finite());
+    let bumped = i.x == p.x && i.y < p.y;
+    // N2 corner of the corner: the bumped point may coincide with the right end (right end one ulp right of the left end)
+    s.assume(!(bumped && bump == q));
     let (l, r) = seg(id, p, q, subj);
-    s.assume(is_subsegment(&l, &r));
-    vcover!(i.x == p.x && i.y < p.y, "corner-case-1-bump");
+    vcover!(bumped, "corner-case-1-bump");
     vcover!(i.x == q.x && i.y > q.y, "vertical-remainder-swap");
     vcover!(i.x > p.x && i.x < q.x, "interior");
 
@@ -108,7 +106,6 @@ pub fn divide_segment_contract_body<F: AnyF, S: Src>(s: &mut S) {
     assert!(!Rc::ptr_eq(&nr, &nl) && !Rc::ptr_eq(&nr, &r) && !Rc::ptr_eq(&nl, &l), "C13: new events are fresh");
     // where
     assert!(nr.point == nl.point, "C16: both pieces end in one and the same point");
-    let bumped = i.x == p.x && i.y < p.y;
     if !bumped {
         assert!(nr.point == i, "C16/C04: division exactly at the given point");
     } else {
@@ -120,6 +117,43 @@ pub fn divide_segment_contract_body<F: AnyF, S: Src>(s: &mut S) {
     // inherited attributes
     assert!(nr.is_subject == subj && nl.is_subject == subj && nr.contour_id == id && nl.contour_id == id, "C13: operand and contour id inherited");
     std::mem::forget((pushed, nr, nl, l, r));
+}
+
+/// Known finding N2, concrete instance (C16: "one and the same point"): dividing (0,5)-(5,0) at (0,3) -- a point of its
+/// bounding box that shares x with the left end and lies below it -- does not divide at (0,3) but one ulp to the right.
+pub fn divide_segment_n2_instance_body<S: Src>(_s: &mut S) {
+    let (p, q, i): (Coord<f64>, Coord<f64>, Coord<f64>) = (Coord { x: 0.0, y: 5.0 }, Coord { x: 5.0, y: 0.0 }, Coord { x: 0.0, y: 3.0 });
+    register_points(&[w(p), w(q), w(i), w(Coord { x: i.x.nextafter(true), y: i.y })]);
+    let (l, r) = seg(1, p, q, true);
+    let mut queue: BinaryHeap<Rc<SweepEvent<f64>>> = BinaryHeap::new();
+    divide_segment(&l, i, &mut queue);
+    let nr = l.get_other_event().unwrap();
+    assert!(nr.point == i, "C16 (N2): division exactly at the given point");
+    std::mem::forget((nr, l, r, queue));
+}
+
+/// Contract stub of `divide_segment` for callers' harnesses (U-I4): checks the precondition, produces a post-state
+/// that satisfies the postcondition proved in `divide_segment_contract_*`.
+#[cfg(kani)]
+pub fn divide_segment_by_contract<F: Float + AnyF>(se_l: &Rc<SweepEvent<F>>, inter: Coord<F>, queue: &mut BinaryHeap<Rc<SweepEvent<F>>>) {
+    let se_r = se_l.get_other_event().unwrap();
+    assert!(se_l.is_left() && inter != se_l.point && inter != se_r.point && inter.x >= se_l.point.x, "precondition of divide_segment (U-I3)");
+    let bumped = inter.x == se_l.point.x && inter.y < se_l.point.y;
+    let at = if bumped { Coord { x: inter.x.nextafter(true), y: inter.y } } else { inter };
+    kani::assume(!(bumped && at == se_r.point));
+    let r = SweepEvent::new_rc(se_l.contour_id, at, false, Rc::downgrade(se_l), se_l.is_subject, true);
+    let l = SweepEvent::new_rc(se_l.contour_id, at, true, Rc::downgrade(&se_r), se_l.is_subject, true);
+    let el = Ev { p: w(at), q: w(se_r.point), left: true, subject: l.is_subject, contour: l.contour_id };
+    let er = Ev { p: w(se_r.point), q: w(at), left: false, subject: l.is_subject, contour: l.contour_id };
+    if !ev_before(el, er) {
+        se_r.set_left(true);
+        l.set_left(false);
+    }
+    se_l.set_other_event(&r);
+    se_r.set_other_event(&l);
+    queue.push(l);
+    queue.push(r);
+    std::mem::forget(se_r);
 }
 
 #[cfg(kani)]
@@ -141,6 +175,14 @@ mod proofs {
     #[kani::unwind(8)]
     fn divide_segment_contract_f32() {
         divide_segment_contract_body::<f32, _>(&mut KaniSrc);
+    }
+
+    #[kani::proof]
+    #[kani::stub(robust::orient2d, orient2d_contract)]
+    #[kani::stub(std::collections::BinaryHeap::push, heap_push_recorder)]
+    #[kani::unwind(8)]
+    fn divide_segment_n2_instance() {
+        divide_segment_n2_instance_body(&mut KaniSrc);
     }
 }
 
@@ -291,6 +333,7 @@ mod proofs_pi {
     #[kani::stub(robust::orient2d, orient2d_contract)]
     #[kani::stub(std::collections::BinaryHeap::push, heap_push_recorder)]
     #[kani::stub(super::super::super::segment_intersection::intersection, intersection_contract)]
+    #[kani::stub(super::super::super::divide_segment::divide_segment, divide_segment_by_contract)]
     #[kani::unwind(8)]
     fn possible_intersection_contract_f64() {
         possible_intersection_contract_body::<f64, _>(&mut KaniSrc);
@@ -300,6 +343,7 @@ mod proofs_pi {
     #[kani::stub(robust::orient2d, orient2d_contract)]
     #[kani::stub(std::collections::BinaryHeap::push, heap_push_recorder)]
     #[kani::stub(super::super::super::segment_intersection::intersection, intersection_contract)]
+    #[kani::stub(super::super::super::divide_segment::divide_segment, divide_segment_by_contract)]
     #[kani::unwind(8)]
     fn possible_intersection_contract_f32() {
         possible_intersection_contract_body::<f32, _>(&mut KaniSrc);
